@@ -334,6 +334,29 @@ func genJSONTypes(c *ctx, st *cs.Stream) {
 	}
 }
 
+// cloneOracle: CaveatSet.Clone hands out an independent set -- what is appended to (or changed in) the copy never shows in
+// the original, for the empty set as for any other (caches and bundles rely on it to keep their copies apart)
+func cloneOracle(sets []*macaroon.CaveatSet) string {
+	for _, set := range sets {
+		before, _ := set.MarshalMsgpack()
+		cp, err := set.Clone()
+		if err != nil {
+			return "Clone fails: " + err.Error()
+		}
+		if cp == set {
+			return fmt.Sprintf("Clone of a set with %d caveats returns the receiver itself", len(set.Caveats))
+		}
+		cp.Caveats = append(cp.Caveats, &macaroon.ValidityWindow{NotBefore: 1, NotAfter: 2})
+		if len(cp.Caveats) > 1 {
+			cp.Caveats[0] = &macaroon.ValidityWindow{NotBefore: 3, NotAfter: 4}
+		}
+		if after, _ := set.MarshalMsgpack(); !bytes.Equal(before, after) {
+			return fmt.Sprintf("changing a Clone changed the original (%d caveats): %x -> %x", len(set.Caveats), before, after)
+		}
+	}
+	return ""
+}
+
 // f8Oracle: a negative GoogleUserID has no wire form (it would come back as its absolute value): encoding must fail,
 // alone, in a set, and on a token (finding F8)
 func f8Oracle() string {
@@ -357,6 +380,14 @@ func genC11(c *ctx) {
 	genJSONTypes(c, st)
 	if f := f8Oracle(); f != "" {
 		st.Add(&cs.Case{Coq: "(KSkip [] false 0%N)", Desc: map[string]any{"op": "encode negative GoogleUserID"}, Class: "corpus/F8", Nontrivial: true, OracleFail: f})
+	}
+	{
+		rd := resset.ActionRead
+		three := macaroon.NewCaveatSet(&flyio.Organization{ID: 1, Mask: resset.ActionAll}, &rd, &macaroon.ValidityWindow{NotBefore: 0, NotAfter: 9})
+		dec, _ := macaroon.DecodeCaveats([]byte{0x90})
+		if f := cloneOracle([]*macaroon.CaveatSet{macaroon.NewCaveatSet(), {}, dec, macaroon.NewCaveatSet(&rd), three}); f != "" {
+			st.Add(&cs.Case{Coq: "(KSkip [] false 0%N)", Desc: map[string]any{"op": "CaveatSet.Clone independence"}, Class: "clone", Nontrivial: true, OracleFail: f})
+		}
 	}
 	r := c.r
 	n := 700
@@ -643,6 +674,17 @@ func exerciseToken(b []byte) {
 }
 
 func exerciseHeader(h string) {
+	if toks, err := macaroon.Parse(h); err == nil {
+		pm, _, dm, _, _ := macaroon.FindPermissionAndDischargeTokens(toks, "https://loc.test")
+		for _, mm := range append(append([]*macaroon.Macaroon{}, pm...), dm...) {
+			_ = mm.Nonce.UUID()
+			mm.Expiration()
+			mm.AllThirdPartyTickets()
+		}
+		for _, p := range pm {
+			p.VerifyParsed(macaroon.NewSigningKey(), dm, nil)
+		}
+	}
 	macaroon.Parse(h)
 	macaroon.ParsePermissionAndDischargeTokens(h, "https://loc.test")
 	b, _ := bundle.ParseBundle("https://loc.test", h)
@@ -768,11 +810,17 @@ func genC12(c *ctx) {
 			input = rng.Pick(r, [][]byte{{0x92, 0x0d, 0x92, 0xc0, 0x00}, {0x92, 0xcc, 0xc8, 0x81, 0x91, 0x01, 0x01}, {0xdd, 0x0f, 0xff, 0xff, 0xfe}, {0x92, 0xcc, 0xc8, 0xc0}})
 			kind = "corpus"
 		case 8: // a registered map- or slice-typed caveat whose length prefix announces far more entries than follow
-			ty := rng.Pick(r, []byte{2, 3, 5, 6, 7, 14, 16, 27, 28, 29})
+			ty := rng.Pick(r, []byte{2, 3, 5, 6, 7, 14, 16, 27, 28, 29, 12, 19, 25, 11, 15})
 			hdr := rng.Pick(r, [][]byte{{0xdf, 0x00, 0x10, 0x00, 0x00}, {0xdf, 0x7f, 0xff, 0xff, 0xff}, {0xde, 0xff, 0xff}, {0xdd, 0x00, 0x20, 0x00, 0x00}, {0xdc, 0xff, 0xff}})
 			input = append([]byte{0x92, ty, 0x91}, hdr...)
 			if ty == 27 {
 				input = append([]byte{0x92, ty}, hdr...)
+			}
+			switch ty {
+			case 12, 19, 25: // the body IS a byte string / string: a bin32 / str32 header announcing far more than follows
+				input = append([]byte{0x92, ty}, rng.Pick(r, [][]byte{{0xc6, 0x10, 0x00, 0x00, 0x00}, {0xc6, 0x7f, 0xff, 0xff, 0xff}, {0xdb, 0x10, 0x00, 0x00, 0x00}, {0xc5, 0xff, 0xff}})...)
+			case 11, 15: // a struct with string / bytes fields
+				input = append([]byte{0x92, ty, 0x93}, rng.Pick(r, [][]byte{{0xdb, 0x10, 0x00, 0x00, 0x00}, {0xc6, 0x10, 0x00, 0x00, 0x00}})...)
 			}
 			if r.Bool() { // nested in a conditional caveat
 				input = append(append([]byte{0x92, 0x0d, 0x92}, input...), 0x00)
